@@ -7,12 +7,12 @@ ALL_INV = ["TypeOK", "Conserved", "EofAfterAllData", "EofAtMostOnce", "ReadCbOnl
 
 
 def consts(kind, acts, D, *, sizes=(1, 2, 3), wms=((0, 0), (1, 2), (2, 2), (2, 1), (0, 1)), durs=(0, 1, 2),
-           drains=(0, 1, 99), extras=("none",), defer=False, filtfn="id", maxcb=8, tend=5, rdcap=4096, wrcap=16384,
-           conn="none", allow=(), xkinds=("r", "e"), script_until=2):
+           drains=(0, 1, 99), extras=("none",), defer=False, filtfn="id", maxcb=8, tend=5, rdcap=16384, wrcap=16384,
+           conn="none", allow=(), xkinds=("r", "e"), script_until=2, oneway=False):
     return {"Kind": kind, "Acts": set(acts), "Sizes": set(sizes), "WMs": set(10 * w[0] + w[1] for w in wms),
             "Durs": set(durs), "D": D, "Drains": set(drains), "Extras": set(extras), "XKinds": set(xkinds), "ScriptUntil": script_until, "Defer": bool(defer),
             "FiltFn": filtfn, "MaxCb": maxcb, "TEnd": tend, "RdCap": rdcap, "WrCap": wrcap, "Conn": conn,
-            "Allow": set(allow)}
+            "Allow": set(allow), "OneWay": bool(oneway)}
 
 
 def tla_val(v):
@@ -225,7 +225,7 @@ def standard_run(pid, tier, seed, plan):
                     vkit.log("[monitor] %s unit=%d: %d scenarios flagged" % (g["name"], unit, nm))
     # canonical scenarios of open known findings: expected to fail; a pass means the finding is gone
     for kf in plan.get("known", []):
-        hs = generate(chk, kf["name"], kf["consts"], simulate=kf.get("simulate", 60), depth=40, seed=seed,
+        hs = generate(chk, kf["name"], kf["consts"], simulate=kf.get("simulate"), depth=40, seed=seed,
                       invariants=("TypeOK",))
         hs = sorted([h for h in hs if h[-1].get("kf", 0) > 0], key=len)[:kf.get("take", 10)]
         if not hs:
@@ -240,6 +240,13 @@ def standard_run(pid, tier, seed, plan):
         chk.cov["traces_validated_against_impl"] += len(hs)
         chk.cov.setdefault("known_finding_scenarios", {})[kf["key"]] = {"run": len(hs), "model_mismatch": len(fails),
                                                                         "monitor_flagged": nm}
+    # fixed canonical scenarios (no model prediction): only the direct monitor judges them
+    for kf in plan.get("known_fixed", []):
+        dc = drv_cfg(kf["consts"])
+        outs = vkit.run_driver(exe, [{"cfg": dc, "h": kf["ops"]}])
+        nm = run_monitor(chk, mon_of(kf["consts"]), [kf["ops"]], outs, dc, kf["name"], key=kf["key"])
+        chk.cov["traces_validated_against_impl"] += 1
+        chk.cov.setdefault("known_finding_scenarios", {})[kf["key"]] = {"run": 1, "monitor_flagged": nm}
     chk.cov["op_histogram"] = total
     missing = [o for o in plan.get("need", []) if total.get(o, 0) == 0]
     if missing:
@@ -322,10 +329,16 @@ def mon_c20(kind):
     def m(h, obs):
         out = []
         en_before = None
+        cfg = {}
         for k, o in enumerate(obs):
+            if h[k]["a"] == "tmo":
+                cfg[h[k]["e"]] = (h[k]["tr"], h[k]["tw"])
             for cb in o["cb"]:
                 if cb["k"] == "e" and cb["f"] & 64:
                     e = cb["e"]
+                    tr, tw = cfg.get(e, (0, 0))
+                    if (cb["f"] & 1 and tr == 0) or (cb["f"] & 2 and tw == 0):
+                        out.append((k, "timeout 0x%x reported to endpoint %d although no such timeout is configured" % (cb["f"], e)))
                     for dbit, enbit, dn in ((1, 2, "read"), (2, 4, "write")):
                         if cb["f"] & dbit and en_before is not None and en_before[e - 1] >= 0 and not (en_before[e - 1] & enbit) \
                                 and h[k]["a"] == "loop" and len(o["cb"]) == 1:
